@@ -23,6 +23,11 @@ class Counter:
             v = -np.inf
         return (v, float(np.sum(x))) if self.blobs else v
 
+    def vec_ro(self, X):
+        out = self.vec(X)
+        out.setflags(write=False)
+        return out
+
     def vec(self, X):
         self.n += len(X)
         out = -0.5 * np.sum((X - 0.5) ** 2, axis=1) / 0.49
@@ -63,6 +68,8 @@ def run(strategy, kernel, blobs, support, seed=5):
         kw["blobs_dtype"] = "float"
     if strategy == "vectorize":
         s = Sampler(pt, c.vec, vectorize=True, **kw)
+    elif strategy == "vectorize-readonly":
+        s = Sampler(pt, c.vec_ro, vectorize=True, **kw)
     elif strategy == "serial":
         s = Sampler(pt, c.one, **kw)
     elif strategy == "pool=1":
@@ -77,7 +84,7 @@ def main():
     tried = 0
     for kernel, blobs, support in itertools.product(("tpcn", "rwm"), (False, True), (False, True)):
         ref = None
-        strategies = ["serial", "pool=1", "pool-like"] + ([] if blobs else ["vectorize"])
+        strategies = ["serial", "pool=1", "pool-like"] + ([] if blobs else ["vectorize"]) + ([] if (blobs or support) else ["vectorize-readonly"])
         for st in strategies:
             tried += 1
             try:
@@ -95,6 +102,31 @@ def main():
             elif d != ref[1]:
                 print(json.dumps({"reproduced": True, "detail": f"kernel={kernel} blobs={blobs} support={support}: strategy {st} and {ref[0]} give different histories/weights/evidence for the same seed",
                                   "input": {"strategy": st, "kernel": kernel, "blobs": blobs, "support": support}}))
+                return
+    # a posterior piled against a prior corner, few particles in many dimensions (sweeps in which every proposal leaves the cube):
+    # calls still equals the number of points the likelihood was evaluated at, in every strategy
+    for n_dim, n_part, kernel in ((8, 4, "rwm"), (8, 4, "tpcn"), (10, 6, "rwm")):
+        for st in ("serial", "vectorize", "pool-like"):
+            tried += 1
+            cnt = {"n": 0}
+
+            def one(x, cnt=cnt):
+                cnt["n"] += 1
+                return float(-np.sum(x + 4.0) / 0.05)
+
+            def vec(X, cnt=cnt):
+                cnt["n"] += len(X)
+                return -np.sum(X + 4.0, axis=1) / 0.05
+            kw = dict(n_dim=n_dim, n_particles=n_part, random_state=7, sample=kernel, clustering=False)
+            try:
+                s = Sampler(pt, vec, vectorize=True, **kw) if st == "vectorize" else Sampler(pt, one, **(dict(kw, pool=ShuffledPool()) if st == "pool-like" else kw))
+                s.run(n_total=4 * n_part, progress=False)
+            except Exception as e:
+                print(json.dumps({"reproduced": True, "detail": f"corner posterior, {st}, n_dim={n_dim}, n_particles={n_part}: {type(e).__name__}: {e}", "input": {"strategy": st, "n_dim": n_dim, "n_particles": n_part}}))
+                return
+            if int(s.state.get_current("calls")) != cnt["n"]:
+                print(json.dumps({"reproduced": True, "detail": f"corner posterior ({kernel}, n_dim={n_dim}, n_particles={n_part}, {st}): reported calls={int(s.state.get_current('calls'))} but the likelihood "
+                                  f"was evaluated at {cnt['n']} points", "input": {"strategy": st, "n_dim": n_dim, "n_particles": n_part, "kernel": kernel}}))
                 return
     # more than 1024 particles, counts that are not a multiple of any chunk size: vectorised == serial, calls exact
     for n_part, kernel in ((1025, "tpcn"), (1027, "rwm")):
